@@ -427,6 +427,9 @@ class Exec(ExprMixin, HeapMixin, StmtMixin, CallMixin, BuiltinMixin):
                 except Unsupported as ex:
                     raise Unsupported(f"return value of {qual}: {ex}")
             fin.locals["result"] = val
+            # parameters in postconditions denote their entry values (they may be re-assigned)
+            for pn, pv in entry.locals.items():
+                fin.locals[pn] = pv
             self.check_post(c, ci, fin, entry, oc)
         for oc in raised:
             self.check_raise(c, ci, oc, entry)
